@@ -414,8 +414,10 @@ def stream_invariant(ctx, rule):
                         continue
                     bad = "after %s the next poll yields data (%s)" % (kind, short(pl, 60))
             elif o2.kind == "backedge":
-                # one more loop turn from the terminal state: its index sites decide (census below)
-                pass
+                # one more loop turn from the terminal state: installing another part stream means data will follow
+                c2 = final_read(ctx, o2, SELF, (("f", roles["cur"]),))
+                if is_agg(c2) and c2[3] == "Some" and isinstance(agg_get(c2, "0"), tuple) and agg_get(c2, "0")[0] == "call" and "::new" in agg_get(c2, "0")[1]:
+                    bad = "after %s the next poll installs another part stream (the response continues after its terminal event)" % kind
         sites = CEN.census(ctx, outs2)
         for key, s in sites.items():
             if s.failed and s.kind in ("index", "slice") and bad is None:
